@@ -29,6 +29,7 @@ DRIVERS = ["modes"]
 THEOREMS = ["C13_same_events", "C13_same_events_exact", "C13_side_state_cleared", "C13_sequences", "C13_no_double",
             "C13_same_events_unconditional_refuted", "C13_side_state_leak_refuted", "C13_sequences_leak_refuted",
             "C13_known_classes_refuted", "C13_pull_pending_refuted", "C13_pull_noop_autostash", "C13_pull_real_autostash",
+            "C13_commit_clears_cherry_pick_state", "C13_commit_attempt_leaves_cherry_pick_state", "C13_abandoned_cherry_pick",
             "C13_nonvacuous"]
 CLAIM = {
     "text": "Partial proof. Both front ends are modelled as translators of one command execution into the events that reach "
@@ -233,6 +234,13 @@ class GWorld(World):
 
     def cp_ai(self, s, paths):
         return self._ticked(super().cp_ai, s, paths)
+
+    def _resolve_conflict(self):
+        super()._resolve_conflict()
+        # sometimes the user first tries `git commit` and bails out after the pre-commit hook has run (empty message)
+        if (self._in_progress("cherry-pick") or self._in_progress("rebase")) and self.r.chance(1, 3):
+            rc, _, _ = self.git("commit", "-m", "")
+            self.trace.append(("commit_attempt_aborted", rc))
 
     def worktree_files(self):
         # files under up/ belong to the upstream: local edits there would make every pull conflict
@@ -577,6 +585,9 @@ STREAMS = {
     # history rewriting
     "rewrite": [(8, "edit"), (6, "commit"), (2, "branch"), (3, "switch"), (4, "rebase"), (3, "rebase_i"),
                 (4, "cherry_pick"), (1, "amend"), (1, "merge_squash"), (1, "detach")],
+    # after a rebase / cherry-pick that had to stop (see conflict_preface)
+    "conflict": [(6, "edit"), (5, "commit"), (1, "amend"), (2, "switch"), (1, "cherry_pick"), (1, "rebase"), (1, "stash"),
+                 (1, "stash_pop")],
     # pull (needs the sibling upstream)
     "pull": [(8, "edit"), (5, "commit"), (3, "pull_ff"), (2, "pull_rebase"), (4, "pull_shape"), (1, "amend"), (1, "stash"),
              (1, "stash_pop")],
@@ -632,6 +643,28 @@ def run_ops(w, r, stream, n_ops):
     w.op_edit(actor=r.pick(["s1", "s2"]))
     w.op_commit("final")
     w.keep_detached()
+
+
+def conflict_preface(w, r):
+    """two branches that append different lines at the bottom of the same file, then a rebase or cherry-pick that
+    must stop; the resolution may first try a `git commit` that aborts after pre-commit, then continue or abort"""
+    path = r.pick([p for p in w.tracked()] or ["a.txt"])
+    w.op_branch()
+    w.op_edit(actor=r.pick(["s1", "s2"]), path=path, region="bottom", kinds=("ins",))
+    w.op_commit()
+    if r.chance(1, 2):
+        w.op_edit(actor=r.pick(["s1", "s2", "H"]))
+        w.op_commit()
+    w.git("switch", "-q", "main")
+    w.cur = "main"
+    w.op_edit(actor=r.pick(["H", "s1"]), path=path, region="bottom", kinds=("ins",))
+    w.op_commit()
+    if r.chance(1, 2):
+        w.git("switch", "-q", w.branches[-1])
+        w.cur = w.branches[-1]
+        w.op_rebase()
+    else:
+        w.op_cherry_pick()
 
 
 def initial_files(r, w):
@@ -798,7 +831,9 @@ def scenario(args):
         else:
             if stream == "pull":
                 w.setup_remote()
-            run_ops(w, r, stream, opts.get("n_ops") or r.range(6, 14))
+            if stream == "conflict":
+                conflict_preface(w, r)
+            run_ops(w, r, stream, opts.get("n_ops") or (r.range(2, 6) if stream == "conflict" else r.range(6, 14)))
         res["trace"] = w.trace
         res["script_len"] = len(w.script)
         res["script"] = w.script
@@ -996,7 +1031,7 @@ def classify(res):
         if cmd == "commit":
             if any(h["rb"] for h in seg["hooks"] if h["name"] in ("pre-commit", "post-commit", "prepare-commit-msg")):
                 hit("C13-K3", f"step {i}: commit while a rebase is stopped")
-            if any(h["cp"] for h in seg["hooks"] if h["name"] in ("pre-commit", "prepare-commit-msg")):
+            if st["rc"] == 0 and any(h["cp"] for h in seg["hooks"] if h["name"] in ("pre-commit", "prepare-commit-msg")):
                 hit("C13-K5", f"step {i}: commit concludes a cherry-pick")
         # ---- K4
         if cmd == "cherry-pick":
@@ -1126,6 +1161,7 @@ def model_case(i, st, seg, journal_w, ids, sim_maps):
         cls = "commit_amend" if "--amend" in a else "commit"
         pre = [h for h in hooks if h["name"] in ("pre-commit", "prepare-commit-msg")]
         f["rb_now"] = _b(any(h["rb"] for h in pre))
+        f["msg_aborted"] = _b(st["rc"] != 0 and "prepare-commit-msg" in names)
         f["cph_now"] = 999 if any(h["cp"] for h in pre) else "none"
     elif cmd == "rebase":
         ctl = [x for x in a[1:] if x in ("--continue", "--skip", "--abort")]
@@ -1468,6 +1504,34 @@ def t_cp_conflict_commit(w):
     _after(w)
 
 
+def _cp_failed_commit(then):
+    """cherry-pick stops on a conflict; the user resolves and runs `git commit`, which aborts AFTER the pre-commit hook
+    (empty message); then --abort / --quit / --skip / --continue; then an ordinary commit of agent lines"""
+    def f(w):
+        _feature2(w, conflict=True)
+        w.git("cherry-pick", "feat~1", env_extra=E)
+        _resolve(w)
+        w.git("commit", "-m", "")
+        w.git("cherry-pick", "--" + then, env_extra=E)
+        _ai(w, "g.txt", ["G1", "G2"], "s1")
+        _commit(w, "aicommit")
+        _after(w)
+    f.__name__ = "t_cp_failed_commit_" + then
+    return f
+
+
+def t_rebase_failed_commit_abort(w):
+    _feature2(w, conflict=True)
+    w.git("switch", "-q", "feat")
+    w.git("rebase", "main", env_extra=E)
+    _resolve(w)
+    w.git("commit", "-m", "")
+    w.git("rebase", "--abort")
+    w.git("switch", "-q", "main")            # any checkout lifts the leaked hook mask (K1)
+    _ai(w, "g.txt", ["G1", "G2"], "s1")
+    _commit(w, "aicommit")
+
+
 def t_cp_abort(w):
     _feature2(w, conflict=True)
     w.git("cherry-pick", "feat~1", "feat", env_extra=E)
@@ -1731,6 +1795,11 @@ TEMPLATES = {
     "cp_single": (t_cp_single, ()),
     "cp_conflict_continue": (t_cp_conflict_continue, ()),
     "cp_abort": (t_cp_abort, ()),
+    "cp_failed_commit_abort": (_cp_failed_commit("abort"), ()),
+    "cp_failed_commit_quit": (_cp_failed_commit("quit"), ()),
+    "cp_failed_commit_skip": (_cp_failed_commit("skip"), ()),
+    "cp_failed_commit_continue": (_cp_failed_commit("continue"), ()),
+    "rebase_failed_commit_abort": (t_rebase_failed_commit_abort, ("C13-K3",)),
     "cp_range": (t_cp_range, ("C13-K4",)),
     "cp_conflict_continue_two": (t_cp_conflict_continue_two, ("C13-K4",)),
     "cp_conflict_commit": (t_cp_conflict_commit, ("C13-K5",)),
@@ -1824,8 +1893,8 @@ def correspondence(results):
 def plan(tier):
     q = tier == "quick"
     items = [{"stream": "template", "template": t, "both": t in BOTH_TEMPLATES} for t in TEMPLATES]
-    n = {"linear": 10, "mixed": 10, "rewrite": 8, "pull": 6, "detached": 10} if q else \
-        {"linear": 250, "mixed": 350, "rewrite": 250, "pull": 150, "detached": 250}
+    n = {"linear": 9, "mixed": 9, "rewrite": 7, "pull": 6, "detached": 9, "conflict": 8} if q else \
+        {"linear": 220, "mixed": 300, "rewrite": 220, "pull": 150, "detached": 220, "conflict": 200}
     for stream, k in n.items():
         for j in range(k):
             items.append({"stream": stream, "both": j % 6 == 0})
